@@ -28,8 +28,9 @@ ASSUME = ['TLC results are exhaustive only within the stated constants (2 oids, 
           'transactions, <= 3 layers); larger configurations are sampled by seeded TLC simulation and by enumerated scenarios',
           'the base is not packed and not written by anyone else while it is wrapped ("the base storage must not change")',
           'after a failed storage call the caller aborts (protocol assumption of IStorage clients)',
-          'blob records (storeBlob / loadBlob through the layers) are decided by C13; here a blob-capable changes '
-          'storage is exercised with ordinary records',
+          'blob records: where both layers keep blobs (FileStorage with a blob directory below; one, or the demo storage\'s own '
+          'changes, on top) oid 0 is a blob written with storeBlob and read with loadBlob / openCommittedBlobFile; what '
+          'FileStorage / BlobStorage do with blob files at undo and pack is C13 (no pack on own changes that hold blobs)',
           'a pack that fails means "nothing changed" in the specification; FileStorage / MappingStorage packing itself is C07',
           'transaction, persistent, zodbpickle, BTrees trusted as installed']
 
@@ -46,10 +47,12 @@ if os.environ.get('ZV_C16_TREE'):        # self-test against a scratch tree with
         TREE[k] = v.strip() not in ('0', 'false', 'FALSE', '')
 
 # concrete base x changes kinds; kinds with the same model share the TLC-generated behaviours
+# ('fileblob' below AND 'fileblob' / 'temp' on top: blob records through storeBlob / loadBlob, see model_key)
 COMBOS = [('mapping', 'file'), ('file', 'mapping'), ('mapping', 'mapping'), ('file', 'file'), ('mapping', 'temp'),
-          ('file', 'fileblob'), ('file', 'temp'), ('mapping', 'fileblob')]
+          ('fileblob', 'fileblob'), ('fileblob', 'temp'), ('file', 'fileblob'), ('file', 'temp'), ('mapping', 'fileblob')]
 # quick: MappingStorage over MappingStorage is left to thorough (both kinds are covered in the other roles)
-QUICK_COMBOS = [('mapping', 'file'), ('file', 'mapping'), ('file', 'file'), ('mapping', 'temp'), ('file', 'fileblob')]
+QUICK_COMBOS = [('mapping', 'file'), ('file', 'mapping'), ('file', 'file'), ('mapping', 'temp'),
+                ('fileblob', 'fileblob'), ('fileblob', 'temp')]
 DEVIATIONS = {
     'tid-order-across-layers':
         'transaction ids come from the changes storage alone (F10): a commit through the demo storage got a tid that is '
@@ -63,6 +66,10 @@ DEVIATIONS = {
         'a demo storage that created its own changes packs them with garbage collection over the changes alone: as soon '
         'as a reference leads into the base (or the root lives there) the pack raises KeyError, and the objects it '
         'visited before - at least the root - have lost their revisions in the changes (committed data reads as the base again)',
+    dd.BLOB_CAUSE:
+        'storeBlob hands the record straight to the changes storage, which checks the serial against its own revisions '
+        'only: for an object that so far lives in the layers below, a stale serial (an older revision, or none at all) '
+        'is accepted where store() raises ConflictError - a lost update across the layers',
     'new_oid-reissues-uncreated-oid':
         'new_oid decides presence by loading the current revision: an id whose object was un-created (undo of its '
         'creation) has records in a layer, does not load, and is handed out again',
@@ -70,14 +77,18 @@ DEVIATIONS = {
 
 
 def model_key(b, c):
-    return (dd.KINDS[b], dd.KINDS[c], c == 'temp')
+    """(model kind of the base, of the changes, own changes?[, 'blob']): flavours with the same key share the behaviours"""
+    k = (dd.KINDS[b], dd.KINDS[c], c == 'temp')
+    return k + ('blob',) if dd.blob_capable(b, c) else k
 
 
 def model_name(k):
-    return '%s-%s' % (k[0], 'temp' if k[2] else k[1])
+    return '%s-%s%s' % (k[0], 'temp' if k[2] else k[1], '-blob' if len(k) > 3 else '')
 
 
 def mconsts(k, **kw):
+    if len(k) > 3:
+        kw.setdefault('BlobOids', (0,))
     return dd.consts(k[0], 'temp' if k[2] else k[1], **kw)
 
 
@@ -317,21 +328,38 @@ def run(ctx):
         expected_cex.append(('OidFreshBothLayers', 'new_oid-reissues-uncreated-oid'))
         jobs.append((_job_cex, (ctx.scratch, 'cex-new_oid', cex_c, [], ['OidFreshBothLayers'], 2, to)))
 
+    blob_key = ('file', 'file', False, 'blob')
+    blob_cex_c = mconsts(blob_key, mode=as_tree, PrintObs=True, **code_kw)
+    if as_tree['BlobStoreSkipsBaseCheck'] and blob_key in keys:
+        expected_cex.append(('ConflictAcrossLayers', dd.BLOB_CAUSE))
+        jobs.append((_job_cex, (ctx.scratch, 'cex-storeBlob', blob_cex_c, ['ConflictAcrossLayers'], [], 2, to)))
+    if not q and blob_key in keys:
+        # the repaired design with a blob oid (storeBlob checks as store does; undo compares the pickles of blobs)
+        jobs.append((_job_check, (ctx.scratch, 'design-file-file-blob', mconsts(blob_key, mode=dd.REPAIRED, **small),
+                                  inv_design, prop_design + ['BlobStoreChecked'], w, to)))
+
     # ---------------------------------------------------------------- 2. TLC: scenarios and simulation for replay
     big = dict(MaxBase=4, MaxTxn=12, MaxClock=7, K=64, MaxLayers=3, MaxNewOid=8, MaxPack=2, MaxUndo=2, PrintObs=True)
     simc = dict(MaxBase=2, MaxTxn=6, MaxClock=3, K=64, MaxLayers=3, MaxNewOid=2, MaxPack=1, MaxUndo=2, PrintObs=True,
                 Metas=('m0', 'm1'))
     num = 30 if q else 400
     fams = {}
+
+    def scripts_kw(k):
+        # references (for the garbage collection of own changes) only where no oid is a blob
+        return dict(big, RefSets='FewRefs' if k[2] and len(k) == 3 else 'NoRefs')
+
+    def sim_kw(k):
+        # no pack on own changes that hold blobs (they are wrapped in a BlobStorage: F15 / C13)
+        return dict(simc, MaxPack=0) if k[2] and len(k) > 3 else simc
     for k in keys:
         n = model_name(k)
         b, c = k[0], 'temp' if k[2] else k[1]
-        refs = 'FewRefs' if k[2] else 'NoRefs'
-        fam = ds.families(b, c, random.Random(seed * 7919 + 11), extra=8 if q else 120)
+        fam = ds.families(b, c, random.Random(seed * 7919 + 11), extra=8 if q else 120, blob=len(k) > 3)
         fams[k] = fam
-        jobs.append((_job_scripts, (ctx.scratch, 'scripts-' + n, mconsts(k, mode=as_tree, RefSets=refs, **big),
+        jobs.append((_job_scripts, (ctx.scratch, 'scripts-' + n, mconsts(k, mode=as_tree, **scripts_kw(k)),
                                     [s for _, s in fam], 2, to)))
-        jobs.append((_job_sim, (ctx.scratch, 'sim-' + n, mconsts(k, mode=as_tree, **simc), num, 70, seed + 1 + len(n), to)))
+        jobs.append((_job_sim, (ctx.scratch, 'sim-' + n, mconsts(k, mode=as_tree, **sim_kw(k)), num, 70, seed + 1 + len(n), to)))
     import time
     t0 = time.time()
     order = {_job_scripts: 0, _job_check: 1, _job_cex: 2, _job_sim: 3}          # the long ones first
@@ -354,15 +382,15 @@ def run(ctx):
             if r.violation != payload:
                 raise tlc.TLCError('ZDemo/%s with the code as it is: expected a counterexample to %s, got %s\n%s' % (
                     name, payload, r.violation, r.output[-2000:]))
-            cex_traces.append((name, r.trace))
+            cex_traces.append((name, r.trace) + ((blob_key, blob_cex_c) if name == 'cex-storeBlob' else (cex_key, cex_c)))
         elif kind == 'scripts':
             k = byname[name[len('scripts-'):]]
-            c = mconsts(k, mode=as_tree, RefSets='FewRefs' if k[2] else 'NoRefs', **big)
+            c = mconsts(k, mode=as_tree, **scripts_kw(k))
             for (fname, _), b in zip(fams[k], payload):
                 behaviours.setdefault(k, []).append(('scenario', fname, b, c))
         elif kind == 'sim':
             k = byname[name[len('sim-'):]]
-            c = mconsts(k, mode=as_tree, **simc)
+            c = mconsts(k, mode=as_tree, **sim_kw(k))
             for f in payload:
                 behaviours.setdefault(k, []).append(('simulation', 'sim', f, c))
 
@@ -371,15 +399,13 @@ def run(ctx):
     for combo in combos:
         k = model_key(*combo)
         for i, (source, fam, b, c) in enumerate(behaviours[k]):
-            if q and combo[1] == 'fileblob' and source == 'simulation':
-                continue                 # quick: the blob-capable flavour replays the scenarios only
             o = {'pad': (0, 3000, 9000)[(i + seed) % 3]}
             jobs.append((b, combo[0], combo[1], c, os.path.join(ctx.scratch, 'rp-%s-%s-%d' % (combo[0], combo[1], i)), o))
             index.append((source, fam, combo, c))
-    for name, trace in cex_traces:
-        for combo in [cb for cb in combos if model_key(*cb) == cex_key]:
-            jobs.append((trace, combo[0], combo[1], cex_c, os.path.join(ctx.scratch, 'rp-%s-%s-%s' % (name, combo[0], combo[1])), {}))
-            index.append(('counterexample', name, combo, cex_c))
+    for name, trace, ck, cc in cex_traces:
+        for combo in [cb for cb in combos if model_key(*cb) == ck]:
+            jobs.append((trace, combo[0], combo[1], cc, os.path.join(ctx.scratch, 'rp-%s-%s-%s' % (name, combo[0], combo[1])), {}))
+            index.append(('counterexample', name, combo, cc))
     t0 = time.time()
     res = par.pmap(dd.replay_behaviour, jobs, chunksize=2)
     if os.environ.get('ZV_DEBUG'):
@@ -409,7 +435,9 @@ def run(ctx):
                     'Begin@base', 'Store@base', 'Finish@base']
     missing = [a for a in need_actions if not acts.get(a)]
     need_tags = ['pack', 'seam', 'seam-walk-2', 'resolved-across-layers', 'conflict', 'undo-ok', 'undo-UndoError', 'new_oid-taken',
-                 'new_oid-free', 'push-stacked', 'pop-stacked', 'checkCurrent-ReadConflictError', 'abort']
+                 'new_oid-free', 'push-stacked', 'pop-stacked', 'checkCurrent-ReadConflictError', 'abort',
+                 'storeBlob-ok', 'storeBlob-conflict(base serial)', 'storeBlob-conflict(changes serial)', 'loadBlob-from-base',
+                 'loadBlob-from-changes', 'blobify']
     missing += [t for t in need_tags if not tags.get(t)]
     if missing and not ctx.violations:
         raise RuntimeError('vacuous run: never exercised %s' % ', '.join(missing))
@@ -438,6 +466,8 @@ def run(ctx):
                 'committed through a demo storage and an object with revisions on both sides of a seam; after EVERY call the '
                 'outcome, the full query table (loadBefore at every tid boundary, load, loadSerial, getTid, history at every '
                 'size, iterator whole and from every start, undoLog, lastTransaction, len) and every storage below the top are compared; '
+                'where both layers keep blobs oid 0 is a blob: storeBlob with a temporary file, every revision read back through loadBlob '
+                'and openCommittedBlobFile, the blob directories of the lower layers part of their snapshots; '
                 'in addition 2-3 committer threads run on a DemoStorage (plain, over a base with history, with FileStorage changes) under '
                 'the cooperative scheduler and the result must equal the TLC-evaluated serial execution in the order the commits returned',
         'traces_validated_against_impl': ev,
